@@ -28,7 +28,7 @@ ASSUMPTIONS = ["observed ranges are those of the baseline days the sub-model was
                "range checks carry a tolerance of 1e-9 of the range",
                "the segment limits are the n-th smallest / largest fitted temperature, n = segment_minimum_count"]
 REQUIRED_REACH = {"fit.done": 10, "submodel.judged": 10, "component.curve_compared": 60, "hook.optimized_result": 100, "component.final_compared": 10,
-                  "component.uncertainty_judged": 60, "component.effective_sample_size_at_its_floor": 1, "data.autocorrelated_residuals": 3, "data.base_load_step": 2, "data.no_positive_slope_on_either_side": 6}
+                  "component.uncertainty_judged": 60, "component.effective_sample_size_at_its_floor": 1, "data.autocorrelated_residuals": 3, "data.base_load_step": 2, "data.no_positive_slope_on_either_side": 6, "fit.model_object_reused": 3}
 
 VIOL = []
 
@@ -205,6 +205,10 @@ def gen_cases(tier, seed):
         i = n + 1000 + j
         cases.append(dict(kind="fit", profile=["legacy", "current", "billing"][j % 3], usage=["flat", "inverted", "flat"][(j // 3) % 3], weekend=0.0, season=0.0,
                           noise=[0.05, 0.1, 0.2][j % 3], outliers=0, tz=zones[j % len(zones)], n_days=365, round_T=False, n=i, timeout=2400))
+    for j in range(4 if q else 40):
+        i = n + 3000 + j
+        cases.append(dict(kind="fit", profile=["current", "legacy"][j % 2], usage=["both", "heating", "cooling"][j % 3], weekend=[0.0, 0.3][(j // 2) % 2], season=0.0,
+                          noise=0.05, outliers=0, tz=zones[j % len(zones)], n_days=365, round_T=False, n=i, timeout=2400, reused_model_object=True))
     na = 8 if q else 60
     for j in range(na):
         i = n + j
@@ -239,7 +243,14 @@ def run_case(spec):
             df.iloc[k:, df.columns.get_loc("observed")] += float(spec["step"]) * float(np.nanmean(df["observed"]))
             I.reach("data.base_load_step")
         data = em.DailyBaselineData(df, is_electricity_data=True)
-        m = FT.make_daily_model(prof).fit(data, ignore_disqualification=True)
+        model = FT.make_daily_model(prof)
+        if spec.get("reused_model_object"):
+            # the object was fitted on ANOTHER meter before (another climate and usage level): nothing of it may survive in the second fit
+            df0 = FT.synth_daily(tz=spec["tz"], start="2016-02-01", n=350, seed=rng, kind="both", noise=0.05, mean=70.0)
+            df0["observed"] = df0["observed"] * 20.0 + 300.0
+            model.fit(em.DailyBaselineData(df0, is_electricity_data=True), ignore_disqualification=True)
+            I.reach("fit.model_object_reused")
+        m = model.fit(data, ignore_disqualification=True)
     I.reach("fit.done")
     if spec["usage"] in ("flat", "inverted"):
         I.reach("data.no_positive_slope_on_either_side")
